@@ -763,6 +763,57 @@ pub fn tame(cfg: &mut Config, input_len: usize) {
     }
 }
 
+/// A FASTQ file whose first record has a quality line that is too short by exactly the length of the
+/// following record: the place where the quality line would end if it were as long as the sequence is a
+/// line end followed by `@`. A parser that peeks there instead of searching the line end accepts the
+/// file and swallows a record. Sequence lengths from a few bytes to 70 000.
+pub fn qual_short_by_next_record(rng: &mut Rng, tag: u64) -> Vec<u8> {
+    let crlf = rng.chance(1, 4);
+    let t: &[u8] = if crlf { b"\r\n" } else { b"\n" };
+    // the record(s) that would be swallowed
+    let mut mid = vec![];
+    for i in 0..1 + rng.below(2) {
+        let l = rng.below(12);
+        mid.extend_from_slice(format!("@r{}_{}", tag, i + 1).as_bytes());
+        mid.extend_from_slice(t);
+        mid.extend((0..l).map(|k| b"ACGT"[k % 4]));
+        mid.extend_from_slice(t);
+        mid.push(b'+');
+        mid.extend_from_slice(t);
+        mid.extend((0..l).map(|_| b'I'));
+        mid.extend_from_slice(t);
+    }
+    let mid_no_lf = mid.len() - 1; // without the final LF
+    let q = match rng.below(6) {
+        0 if !cfg!(miri) => *rng.pick(&[4000usize, 4095, 4096, 4097, 8192, 65_536, 70_000]),
+        1 if !cfg!(miri) => rng.range(1000, 5000),
+        _ => rng.below(40),
+    };
+    // raw length of the sequence line (with its CR, without LF) = q + |T| + mid without its last LF
+    let raw = q + t.len() + mid_no_lf;
+    let l = raw - (t.len() - 1);
+    let mut out = vec![];
+    out.extend_from_slice(format!("@r{}_0", tag).as_bytes());
+    out.extend_from_slice(t);
+    out.extend((0..l).map(|k| b"ACGT"[k % 4]));
+    out.extend_from_slice(t);
+    out.push(b'+');
+    out.extend_from_slice(t);
+    out.extend((0..q).map(|_| b'I'));
+    out.extend_from_slice(t);
+    out.extend_from_slice(&mid);
+    // the record behind the swallowed ones
+    out.extend_from_slice(format!("@r{}_9", tag).as_bytes());
+    out.extend_from_slice(t);
+    out.extend_from_slice(b"AC");
+    out.extend_from_slice(t);
+    out.push(b'+');
+    out.extend_from_slice(t);
+    out.extend_from_slice(b"II");
+    out.extend_from_slice(t);
+    out
+}
+
 /// Things other tools put into sequence files and lenient parsers accept, but the documented rules
 /// of this crate do not: byte order marks, comment lines, indentation, control characters, magic
 /// numbers. One of them is inserted at the start of the file, at the start of a line or at the very end.
